@@ -264,7 +264,17 @@ def consume(stepper, snapshot, case, StepCompleted, StepFailed, StateComputed):
 
 def run_interp(case, code, obs):
     from dagrt.exec_numpy import NumpyInterpreter, StateComputed, StepCompleted, StepFailed
-    interp = NumpyInterpreter(code, lang.function_map(FUNCS))
+    orders = []
+
+    class Rec(NumpyInterpreter):
+        def run_single_step(self):
+            orders.append([self.next_phase, []])
+            yield from super().run_single_step()
+
+        def evaluate_condition(self, stmt):
+            orders[-1][1].append(int(stmt.id.rsplit("_", 1)[1]))
+            return super().evaluate_condition(stmt)
+    interp = Rec(code, lang.function_map(FUNCS))
     ctx = lang.RecDict()
     interp.context = ctx
     interp.eval_mapper.context = ctx
@@ -275,6 +285,7 @@ def run_interp(case, code, obs):
     r = consume(interp, snapshot, case, StepCompleted, StepFailed, StateComputed)
     # H-def: did any expression read storage that was unset at that moment?
     r["leftover"] = sorted(k for k in dict.keys(ctx) if k not in obs)
+    r["orders"] = orders
     return r
 
 
@@ -297,7 +308,12 @@ def run_codegen(case, code, obs):
             a = attr(n)
             out.append(lang.canon_val(getattr(m, a)) if hasattr(m, a) else None)
         return out
-    return consume(m, snapshot, case, cls.StepCompleted, cls.StepFailed, cls.StateComputed)
+    r = consume(m, snapshot, case, cls.StepCompleted, cls.StepFailed, cls.StateComputed)
+    # the order of the leaves of the tree the generator walked, per phase
+    from dagrt.codegen.dag_ast import create_ast_from_phase, get_statements_in_ast
+    r["orders"] = [[nm, [int(s.id.rsplit("_", 1)[1]) for s in get_statements_in_ast(create_ast_from_phase(code, nm))]]
+                   for nm in code.phases]
+    return r
 
 
 def reads_unset(case, code):
@@ -448,11 +464,16 @@ def case_term(case, ri, rg, obs, fuel, init_store=None):
         dict({"<state>" + k: v for k, v in case["init"].items()}, **{"<t>": ["int", 0], "<dt>": ["int", 1]})
     tend = "(Some %d)" % case["limit"] if case["mode"] == "time" else "None"
     mx = "(Some %d%%nat)" % case["limit"] if case["mode"] == "steps" else "None"
-    return "(Build_case1 [%s] %s %s %s %s %d%%nat [%s] %s %s)" % (
+    def ords(r):
+        if r is None or "orders" not in r:
+            return "[]"
+        return "[%s]" % "; ".join("(%s, [%s])" % (lang.coq_str(nm), "; ".join("%d%%nat" % i for i in ids))
+                                  for nm, ids in r["orders"])
+    return "(Build_case1 [%s] %s %s %s %s %d%%nat [%s] %s %s %s %s)" % (
         phases, lang.store_to_coq(store), lang.coq_str(case["first"]), tend, mx, fuel,
         "; ".join(lang.coq_str(n) for n in obs),
         xrun_to_coq(ri) if ri is not None else "None",
-        xrun_to_coq(none_to_unset(rg, True)) if rg is not None else "None")
+        xrun_to_coq(none_to_unset(rg, True)) if rg is not None else "None", ords(ri), ords(rg))
 
 
 def attempts(r):
